@@ -1,5 +1,6 @@
 SPECIFICATION Spec
 CONSTANTS MaxMono = 0
+ CoefSet <- Coefs3
  MaxOps = 3
  MaxSize = 9
  InitP <- ZeroOnly
@@ -14,4 +15,5 @@ INVARIANT NormalForm
 INVARIANT EvalCommutes
 INVARIANT EvalDefined
 INVARIANT RingLaws
+INVARIANT SeqDenotes
 CHECK_DEADLOCK FALSE
